@@ -21,6 +21,7 @@ import (
 	"github.com/tikv/pd/server"
 	"github.com/tikv/pd/server/cluster"
 	"github.com/tikv/pd/server/config"
+	"go.etcd.io/etcd/clientv3"
 	"go.etcd.io/etcd/embed"
 	"google.golang.org/grpc"
 	"pdverif/vkit"
@@ -28,13 +29,15 @@ import (
 )
 
 type GrpcCase struct {
-	Stores    int    `json:"stores"`    // fresh stores registered through gRPC (1..3)
-	Victim    int    `json:"victim"`    // which of them is removed and buried
-	Destroyed bool   `json:"destroyed"` // removed as physically destroyed
-	HbOffline bool   `json:"hbOffline"` // a heartbeat while it is offline
-	Change    string `json:"change"`    // what the re-registration changes: same | addr | labels | version
-	HbFirst   bool   `json:"hbFirst"`   // heartbeat before the re-registration
-	Admin     bool   `json:"admin"`     // afterwards also try UpStore / RemoveStore on it
+	Stores    int    `json:"stores"`              // fresh stores registered through gRPC (1..3)
+	Victim    int    `json:"victim"`              // which of them is removed and buried
+	Destroyed bool   `json:"destroyed"`           // removed as physically destroyed
+	HbOffline bool   `json:"hbOffline"`           // a heartbeat while it is offline
+	Change    string `json:"change"`              // what the re-registration changes: same | addr | labels | version
+	HbFirst   bool   `json:"hbFirst"`             // heartbeat before the re-registration
+	Admin     bool   `json:"admin"`               // afterwards also try UpStore / RemoveStore on it
+	Reload    bool   `json:"reload,omitempty"`    // then the raft cluster is reloaded from storage (leadership term restart): still tombstone, still refused
+	BootRound bool   `json:"bootRound,omitempty"` // first: the BOOTSTRAP store goes Offline, reload, Up, reload
 }
 
 func genGrpc(t *rapid.T) GrpcCase {
@@ -46,6 +49,8 @@ func genGrpc(t *rapid.T) GrpcCase {
 	c.Change = rapid.SampledFrom([]string{"same", "addr", "labels", "version"}).Draw(t, "change")
 	c.HbFirst = rapid.Bool().Draw(t, "hbFirst")
 	c.Admin = rapid.Bool().Draw(t, "admin")
+	c.Reload = rapid.Bool().Draw(t, "reload")
+	c.BootRound = rapid.IntRange(0, 2).Draw(t, "bootRound") == 0
 	return c
 }
 
@@ -178,6 +183,106 @@ func waitLeader(d time.Duration) *cluster.RaftCluster {
 	}
 }
 
+// reloadCluster ends the leadership term of the raft cluster and starts the next one: Stop, then
+// Start on the server's BasicCluster with everything loaded from storage again (what the
+// leader loop does with stopRaftCluster / createRaftCluster).
+func reloadCluster(rc *cluster.RaftCluster) error {
+	rc.Stop()
+	return rc.Start(srv)
+}
+
+// checkStoreKeys: every record under <root>/raft/s/ sits at the key core.Storage uses for that
+// store id (20-digit zero padded), one record per store id. The bootstrap handler writes the
+// first store record itself; all later writes and LoadStore(id) go through core.Storage.
+func checkStoreKeys() error {
+	prefix := srv.GetClusterRootPath() + "/s/"
+	ctx, cancel := context.WithTimeout(context.Background(), 15*time.Second)
+	defer cancel()
+	resp, err := srv.GetClient().Get(ctx, prefix, clientv3.WithPrefix())
+	if err != nil {
+		return errInconclusive
+	}
+	seen := map[uint64]string{}
+	for _, kv := range resp.Kvs {
+		st := &metapb.Store{}
+		if err := st.Unmarshal(kv.Value); err != nil {
+			return fmt.Errorf("storage key %s does not hold a store record: %v", kv.Key, err)
+		}
+		want := fmt.Sprintf("%s%020d", prefix, st.GetId())
+		if string(kv.Key) != want {
+			return fmt.Errorf("the record of store %d {%s} is stored at key %s; core.Storage reads and writes store %d at %s", st.GetId(), canonMeta(st), kv.Key, st.GetId(), want)
+		}
+		if other, dup := seen[st.GetId()]; dup {
+			return fmt.Errorf("store %d has two records in storage: %s and %s", st.GetId(), other, kv.Key)
+		}
+		seen[st.GetId()] = string(kv.Key)
+	}
+	return nil
+}
+
+// servedEqualsStored: after a reload every served store equals its stored record.
+func servedEqualsStored(rc *cluster.RaftCluster, when string) error {
+	for _, s := range rc.GetStores() {
+		st := &metapb.Store{}
+		ok, err := srv.GetStorage().LoadStore(s.GetID(), st)
+		if err != nil {
+			return errInconclusive
+		}
+		if !ok {
+			return fmt.Errorf("%s: store %d is served {%s} but has no stored record", when, s.GetID(), canonMeta(s.GetMeta()))
+		}
+		if !sameRecord(st, s.GetMeta()) {
+			return fmt.Errorf("%s: store %d served {%s}, stored {%s}", when, s.GetID(), canonMeta(s.GetMeta()), canonMeta(st))
+		}
+	}
+	return nil
+}
+
+// bootRound: lifecycle changes of the bootstrap store survive a reload.
+func bootRound(rc *cluster.RaftCluster) error {
+	boot := rc.GetStore(bootStoreID)
+	if boot == nil {
+		return fmt.Errorf("the bootstrap store %d is not served", bootStoreID)
+	}
+	if !boot.IsUp() {
+		if err := rc.UpStore(bootStoreID); err != nil {
+			return errInconclusive // left behind by an aborted case
+		}
+	}
+	steps := []struct {
+		name string
+		do   func() error
+		want metapb.StoreState
+	}{
+		{"RemoveStore", func() error { return rc.RemoveStore(bootStoreID, false) }, metapb.StoreState_Offline},
+		{"UpStore", func() error { return rc.UpStore(bootStoreID) }, metapb.StoreState_Up},
+	}
+	for _, st := range steps {
+		if err := st.do(); err != nil {
+			return fmt.Errorf("%s(bootstrap store %d) failed: %v", st.name, bootStoreID, err)
+		}
+		if err := reloadCluster(rc); err != nil {
+			return fmt.Errorf("reload of the raft cluster after %s(bootstrap store) failed: %v", st.name, err)
+		}
+		got := rc.GetStore(bootStoreID)
+		if got == nil || got.GetState() != st.want {
+			state := "not served"
+			if got != nil {
+				state = got.GetState().String()
+			}
+			return fmt.Errorf("after %s(bootstrap store %d) and a reload from storage the store is %s, want %s", st.name, bootStoreID, state, st.want)
+		}
+		when := fmt.Sprintf("after %s(bootstrap store %d) and a reload", st.name, bootStoreID)
+		if err := servedEqualsStored(rc, when); err != nil {
+			return err
+		}
+		if err := checkStoreKeys(); err != nil {
+			return err
+		}
+	}
+	return nil
+}
+
 func hdr() *pdpb.RequestHeader { return &pdpb.RequestHeader{ClusterId: srv.ClusterID()} }
 
 func rpcPut(s *metapb.Store) (*pdpb.PutStoreResponse, error) {
@@ -254,6 +359,19 @@ func runGrpc(c GrpcCase) (info vkit.Info, err error) {
 			info, err = vkit.Info{Inconclusive: true, Classes: []string{"inconclusive:leader-changed"}}, nil
 		}
 	}()
+	if e := checkStoreKeys(); e == errInconclusive {
+		return inconclusive("rpc-error")
+	} else if e != nil {
+		return info, e
+	}
+	if c.BootRound {
+		if e := bootRound(rc); e == errInconclusive {
+			return inconclusive("rpc-error")
+		} else if e != nil {
+			return info, e
+		}
+		info.Class("bootstrap-store-offline-reload-up-reload")
+	}
 	var ids []uint64
 	metas := map[uint64]*metapb.Store{}
 	for i := 0; i < c.Stores; i++ {
@@ -384,6 +502,34 @@ func runGrpc(c GrpcCase) (info vkit.Info, err error) {
 			return info, fmt.Errorf("refused admin commands changed tombstone store %d: %s", victim, d)
 		}
 		info.Class("admin-after-tombstone")
+	}
+	if c.Reload {
+		if e := reloadCluster(rc); e != nil {
+			return info, fmt.Errorf("reload of the raft cluster failed: %v", e)
+		}
+		after, e := viewOf(rc, victim)
+		if e != nil {
+			return info, fmt.Errorf("after a reload from storage: %v", e)
+		}
+		if !sameRecord(before.meta, after.meta) || after.meta.GetState() != metapb.StoreState_Tombstone {
+			return info, fmt.Errorf("after a reload from storage tombstone store %d is served as {%s}, before {%s}", victim, canonMeta(after.meta), canonMeta(before.meta))
+		}
+		if e := servedEqualsStored(rc, "after a reload"); e == errInconclusive {
+			return inconclusive("rpc-error")
+		} else if e != nil {
+			return info, e
+		}
+		if e := doPut(); e == errInconclusive {
+			return inconclusive("rpc-error")
+		} else if e != nil {
+			return info, fmt.Errorf("after a reload from storage: %v", e)
+		}
+		if e := checkStoreKeys(); e == errInconclusive {
+			return inconclusive("rpc-error")
+		} else if e != nil {
+			return info, e
+		}
+		info.Class("reload-after-tombstone")
 	}
 	// the others are still served normally
 	for _, id := range ids {
